@@ -80,6 +80,16 @@ class Run(object):
             rec = DRec(d)
             self.rec = rec
             sim.pump()
+            # Tor only reports HS_DESC events to a controller that asked for them: the subscription has to be on the wire
+            # before the command that creates the service, or the first uploads go unseen
+            pend = [c.decode() for c in sim.pending()]
+            if pend and pend[0].startswith(cmd):
+                if not any(c.startswith('SETEVENTS') and 'HS_DESC' in c.split() for c in sim.commands):
+                    self.viol.append(('creating-command-before-subscription', kind,
+                                      '%s is on the wire but no SETEVENTS with HS_DESC was sent before it (commands so far %r)'
+                                      % (cmd, sim.commands[-3:])))
+            elif not rec.fires:
+                self.viol.append(('creating-command-not-sent', kind, 'pending %r' % (pend,)))
             # reference
             self.reply = False
             self.attempted = set()
